@@ -3,5 +3,5 @@ CONSTANTS
  ModeSet = "all64"
  QKeySlashIsComment = FALSE
 ACTION_CONSTRAINT WEmit
-INVARIANTS JsonLaw XdlLaw LayoutLaw ModeLaw
+INVARIANTS JsonLaw XdlLaw LayoutLaw PromiseLaw ModeLaw
 CHECK_DEADLOCK FALSE
